@@ -147,11 +147,59 @@ def nodes_of(lib):
     return out
 
 
+def boundary_cases():
+    """Boundary values (0, 1, 7, 8, negative, non-numeric, bare, `=int`) of the integer-valued attribute `rank`
+    combined, in both orders, with every attribute it conflicts with (`dimension`, and `value` for dimension), on a
+    pointer argument, a non-pointer argument and a pointer result.  -> list of (decl, rule or None): `rule` names the
+    documented rule by which the declaration must be rejected (independent of the code under test)."""
+    ranks = ["(0)", "(1)", "(2)", "(7)", "(8)", "(-1)", "(x)", "(1.5)", "", "=0", "=1", "=7", "=8"]
+    partners = ["", "+dimension(n)", "+dimension(3)", "+dimension(n,m)", "+value"]
+    hosts = [("ptr-arg", "void f(int n, int m, int *a %s)", True), ("scalar-arg", "void f(int n, int m, int a %s)", False),
+             ("ptr-result", "int *f(int n, int m) %s", True)]
+    out = []
+
+    def rule(rank, partner, is_ptr, hid):
+        if rank in ("(x)", "(1.5)", ""):
+            return "rank-must-be-an-integer"
+        if rank in ("(8)", "=8"):
+            return "rank-must-be-0-7"
+        if not is_ptr and rank not in ("=0",):
+            return "rank-only-on-pointer"
+        if "dimension" in partner and not is_ptr:
+            return "dimension-only-on-pointer"
+        if "dimension" in partner and rank != "=0":
+            # `+rank=0` stores the integer 0, which Python treats as "no rank"; every written rank(...) conflicts
+            return "rank-and-dimension"
+        return None
+
+    for hid, tmpl, is_ptr in hosts:
+        for rk in ranks:
+            for pt in partners:
+                if pt == "+value" and hid == "ptr-result":
+                    continue
+                for order in (0, 1):
+                    a, b = "+rank" + rk, pt
+                    attrs = (a + b) if order == 0 else (b + a)
+                    if rk.startswith("=") and order == 0 and b:
+                        continue      # `+rank=0+dimension` is not parseable: `=value` must come last
+                    out.append((tmpl % attrs, rule(rk, pt, is_ptr, hid)))
+    for pt in ("+dimension(n)+value", "+value+dimension(n)"):
+        out.append(("void f(int n, int *a %s)" % pt, "value-and-dimension"))
+    return out
+
+
 def run_vattrs(ctx, thorough, ok):
     from shroud import ast as sast, generate, typemap, main as smain
     from tools.props import c17_attrs
     drv = common.Driver("drv_decl")
     cases, known, _ = c17_attrs.attr_cases(thorough)
+    expect = {}
+    for decl, rule in boundary_cases():
+        for lang in ("c", "cxx"):
+            label = "boundary %s" % decl
+            cases.append((lang, None, [{"decl": decl}], label, ("boundary", decl)))
+            expect[(lang, label)] = rule
+    bstat = {"cases": 0, "must_reject": 0, "rejected": 0, "accepted_although_illegal": 0, "library_rejected": 0}
     reqs, impl, labels = [], [], []
     stat = {"libraries": 0, "library_rejected_before_verify": 0, "nodes": 0, "outside_model": 0, "fortran_generic_skipped": 0,
             "by_outcome": {}, "by_id": {}}
@@ -166,6 +214,9 @@ def run_vattrs(ctx, thorough, ok):
                     cfg.log = c17_attrs._NULL
             except (RuntimeError, SystemExit, DeprecationWarning):
                 stat["library_rejected_before_verify"] += 1
+                if (lang, label) in expect:
+                    bstat["cases"] += 1
+                    bstat["library_rejected"] += 1
                 continue
             except Exception:  # noqa  (an internal exception here is C17's own oracle's business)
                 continue
@@ -194,6 +245,17 @@ def run_vattrs(ctx, thorough, ok):
                     res = "reject " + msg_id(str(e))
                 except Exception as e:  # noqa
                     res = "crash " + type(e).__name__
+                if (lang, label) in expect and kind == "fcn":
+                    rule = expect[(lang, label)]
+                    bstat["cases"] += 1
+                    if rule is not None:
+                        bstat["must_reject"] += 1
+                        if res.startswith("reject"):
+                            bstat["rejected"] += 1
+                        elif res.startswith("ok"):
+                            bstat["accepted_although_illegal"] += 1
+                            ctx.fail("attrs-accepted:" + rule, "[%s] %s is accepted by VerifyAttrs although the documented rule %r "
+                                     "forbids it" % (lang, label[9:], rule), {"kind": "attrs", "yaml": d})
                 reqs.append(req)
                 impl.append(res)
                 labels.append("[%s] %s :: %s" % (lang, label, node.ast.gen_decl() if hasattr(node.ast, "gen_decl") else ""))
@@ -205,6 +267,7 @@ def run_vattrs(ctx, thorough, ok):
                     key = ":".join(i[:2])
                     stat["by_id"][key] = stat["by_id"].get(key, 0) + 1
     ctx.count(len(reqs))
+    ctx.note("verifyAttrs_boundary", bstat)
     if not (drv.available() and ok):
         ctx.tie_broken("verifyAttrs-correspondence", "driver not built")
         return
